@@ -115,11 +115,11 @@ impl Model for M {
         for i in 1..=MAX_INDEX {
             v.push(Op::DeleteFrom(i));
         }
+        // a snapshot at any index: above the current one, the same index again, or a stale one
+        // below it ("a snapshot at index i removes only entries at or below i" whatever i is)
         for i in 1..=MAX_INDEX {
-            if i > snap_i {
-                for t in 1..=MAX_TERM {
-                    v.push(Op::Snapshot(i, t));
-                }
+            for t in 1..=MAX_TERM {
+                v.push(Op::Snapshot(i, t));
             }
         }
         v
